@@ -104,6 +104,7 @@ def _fault_plan(r, enabled, bitmap=False):
                     "pick": r.randint(0, 1 << 30),
                     "kind": r.choice(["fail_before", "fail_after", "torn_efbig", "torn_kill", "torn_kill", "kill_at_op"]),
                     "k": r.choice([0, 0, 1, 1, 2, 3]),
+                    "code": r.choice([1, 1, 1, 2, 3, 127, 130, 255]),  # the status a failing step exits with (ninja passes it on)
                     "frac": r.choice([0.0, 0.5, 0.99, round(r.random(), 3)]),
                     "n_fallback": int(2 ** r.uniform(0, 16)),
                     "rules": r.choice([None, None, ["write_font"], ["picosvg"], ["nanoemoji.write_glyphmap"], ["write_bitmap", "pngquant", "zopflipng"], ["write_part_file", "write_combined"], ["write_fea"]]),
